@@ -157,7 +157,7 @@ impl Check for TemplateCheck {
 }
 
 pub fn run_all(ctx: &mut Ctx, replay: Option<&Path>) {
-    ctx.rule("case = (template constructor with parameters drawn from the ranges the constructor and the documented operator contracts accept, problem instance (real dim 1-6 over 5 objective kinds and 4 domains; binary dim 1-8; permutation/TSP n 3-8 over 3 distance-matrix kinds), iterations 0..25, seed); run through optimize_with with the step observer: constructor Ok, run Ok without panic, final Iterations == requested, observed main-loop passes == requested, stack height at the end of every pass == height at the first pass start and 1 at the end, population size at every pass end within the template's rule (and == number of molecules for CRO); non-trivial = runs with >= 3 iterations; distinct by case");
+    ctx.rule("case = (template constructor with parameters drawn from the ranges the constructor and the documented operator contracts accept, problem instance (real dim 1-6 over 5 objective kinds and 4 domains; binary dim 1-8; permutation/TSP n 3-8 over 3 distance-matrix kinds), iterations 0..25, seed); run through optimize_with (one run in four with the parallel evaluator) with the step observer: constructor Ok, run Ok without panic, final Iterations == requested, observed main-loop passes == requested, stack height at the end of every pass == height at the first pass start and 1 at the end, population size at every pass end within the template's rule (and == number of molecules for CRO); non-trivial = runs with >= 3 iterations; distinct by case");
     ctx.assume("parameter ranges: sizes >= 1, tournament <= population, DE population >= 2y + 1, probabilities in [0,1], cooling factors in [0,1), v_max > 0, IWO initial <= max and initial_deviation < final_deviation, num_swap in 2..=dim, MMAS min < max, ants >= 1");
     if let Some(p) = replay {
         for i in 0..21 {
